@@ -26,7 +26,7 @@ ASSUMPTIONS = [
     "predicates are pure functions of the offered NodeTraversalInfo",
     "reference walker (20 lines) encodes the statement: pruned nodes are offered to filter, their descendants are not visited",
 ]
-MUST_SEE = ["falsy_callable_predicates", "positional_predicates", "late_defined_subclass", "prune_not_filter_with_desc", "falsy_children", "shared_objects", "bottom_up_with_prune", "gather_calls", "deep_chain", "deep_3000_traversals", "abandoned_traversals", "reentrant_predicates"]
+MUST_SEE = ["traversal_after_replace_with_equal_children", "falsy_callable_predicates", "positional_predicates", "late_defined_subclass", "prune_not_filter_with_desc", "falsy_children", "shared_objects", "bottom_up_with_prune", "gather_calls", "deep_chain", "deep_3000_traversals", "abandoned_traversals", "reentrant_predicates"]
 CONFIG = {
     "quick": {"shards": 16, "small_trees": 600, "exh_n": 4, "large_trees": 300, "watchdog_s": 300},
     "thorough": {"shards": 32, "small_trees": 400, "exh_n": 6, "large_trees": 250, "watchdog_s": 3000},
@@ -422,6 +422,31 @@ def run_shard(ctx):
                             "expected": [idx_of.get(id(x), "?") for x in exp],
                         },
                     )
+        # history: the tree was traversed; its root is replaced by a node holding freshly built equal children (the old root is
+        # still referenced, the new one takes over its id): traversing the new root yields the new objects at their positions
+        if case % 4 == 1:
+            kw = {}
+            for f in U.child_fields(type(root).__name__):
+                if not f.init:
+                    continue
+                v = getattr(root, f.name)
+                kw[f.name] = None if v is None else tuple(c.duplicate() for c in v) if isinstance(v, tuple) else v.duplicate()
+            if any(v for v in kw.values() if v is not None and v != ()):
+                new_root = root.replace(**kw)
+                ctx.evaluations += 1
+                ctx.count("traversal_after_replace_with_equal_children")
+                exp_first = []
+                for f in U.child_fields(type(new_root).__name__):
+                    v = getattr(new_root, f.name)
+                    if v is None:
+                        continue
+                    exp_first.extend((c, new_root, f.name, i) for i, c in enumerate(v)) if isinstance(v, tuple) else exp_first.append((v, new_root, f.name, None))
+                got_first = [(i.node, i.parent, i.field.name, i.findex) for i in new_root.bfs()][: len(exp_first)]
+                if len(got_first) != len(exp_first) or any(g[0] is not e[0] or g[1] is not e[1] or g[2] != e[2] or g[3] != e[3] for g, e in zip(got_first, exp_first)):
+                    ctx.violation("position-info", "after replace() with freshly built equal children (same id as the node still referenced) the traversal does not yield the new node's own children", {"tree": spec_json(s)})
+                if any(getattr(i.parent, i.field.name) is not i.node if i.findex is None else getattr(i.parent, i.field.name)[i.findex] is not i.node for i in new_root.dfs()):
+                    ctx.violation("position-info", "a yielded (node, parent, field, index) does not hold: parent.field[index] is another object", {"tree": spec_json(s), "history": "replace() with equal children"})
+                new_root.detach()
         ctx.count("trees")
         ctx.count("trees_exhaustive" if small else "trees_sampled")
 
